@@ -378,7 +378,9 @@ impl Check for C06 {
             });
         }
         super::mixed::explore_mixed(run, "C06", owns, if q { 5 } else { 6 }, true);
-        super::mixed::explore_alpha(run, "C06", "cross-nested clips and layers", super::mixed::cross_alphabet(), owns, if q { 6 } else { 7 }, true);
+        super::mixed::explore_alpha(run, "C06", "cross-nested clips and layers", super::mixed::cross_alphabet(), owns, if q { 6 } else { 7 }, true, Dst::Distinct);
+        // the same on a target made by from_backing over existing pixels
+        super::mixed::explore_alpha(run, "C06", "cross-nested clips and layers, from_backing target", super::mixed::cross_alphabet(), owns, if q { 5 } else { 6 }, true, Dst::Backing(Box::new(Dst::Distinct)));
     }
 
     fn replay(&self, case: &str) -> Result<Option<Violation>, String> {
